@@ -11,31 +11,53 @@ from hypothesis import strategies as st
 
 from vlib.hyp import Failure, Outcome, Stats, search, derive_seed
 
-RULE = ('cases = 1-3 particle arrays (0-12 particles, ghosts at the tail, '
+RULE = ('cases = 1-5 particle arrays (0-12 particles, ghosts at the tail, '
         'some arrays empty, some lacking dt_cfl/dt_force/dt_visc/dt_adapt), '
         'criterion values >= 0 incl. all zero, h log-uniform in [1e-3,1e3] '
-        '(incl. all h > 1), cfl in (0,1], fixed_h on/off, 1-3 rounds of '
+        '(incl. all h > 1), cfl in (0,3], fixed_h on/off, 1-3 rounds of '
         'changing values (and, without fixed_h, arrays that are empty in '
         'some rounds and filled in others) then update then compute on the '
-        'same Integrator. Non-trivial = >= 2 '
+        'same Integrator; one of three further histories on that object: '
+        'set_fixed_h switched on / off / on again between the rounds, '
+        'arrays entering and leaving the evaluator (list edited in place or '
+        'set_acceleration_evals called again), criterion properties added '
+        'to / removed from an array; evaluators given as one object, a list '
+        'or a tuple of several; cfl changing per round; the solver with '
+        'adaptivity switched off for a round. Non-trivial = >= 2 '
         'criteria positive and min h != 1; distinct by case hash.')
 ASSUMPTIONS = [
     'hmin may be the minimum over all particles or over real particles '
     '(the statement does not say which); both are accepted',
     'relative tolerance 1e-12',
+    'while fixed_h is set the smoothing lengths and the set of arrays stay '
+    'as they were when it was set (that is what the flag promises)',
+    'KNOWN (audit audC10, /var/tmp/audC10/dt_adapt_cache.py): whether '
+    'dt_adapt is used is decided once per Integrator; a first array with '
+    'dt_adapt entering the evaluator after the first call is ignored.  '
+    'Such histories are not generated (counted as excluded:...)',
 ]
 ESSENTIAL_LABELS = {'all': ['empty_array', 'all_h_gt_1', 'dt_adapt',
                             'no_criterion', 'ghosts', 'fixed_h',
                             'missing_props', 'solver_path',
                             'solver_damped', 'array_appears',
-                            'dt_adapt_appears']}
+                            'dt_adapt_appears',
+                            # audit extensions
+                            'fix:unfix', 'fix:refix', 'fix:late',
+                            'members:enter', 'members:leave',
+                            'members:reset', 'members:mutate',
+                            'members:dt_adapt_moves', 'props:added',
+                            'props:removed', 'aevals:many', 'aevals:tuple',
+                            'aevals:list', 'cfl_varies',
+                            'solver_fixed_step', 'solver+dt_adapt',
+                            'solver_parallel',
+                            'dt_adapt_not_positive']}
 
 CRIT = ('dt_cfl', 'dt_force', 'dt_visc')
 
 
 @st.composite
-def case_strategy(draw):
-    narr = draw(st.integers(1, 3))
+def case_strategy(draw, audit=False):
+    narr = draw(st.integers(1, 5 if audit else 3))
     hk = draw(st.sampled_from(['gt1', 'lt1', 'mixed', 'mixed']))
     arrays = []
     use_adapt = draw(st.integers(0, 3)) == 0
@@ -74,16 +96,74 @@ def case_strategy(draw):
         arrays.append(dict(n=n, nghost=nghost, props=props, rounds=rounds,
                            present=present))
     fixed_h = draw(st.booleans())
-    if fixed_h:
-        for a in arrays:
-            a['present'] = [True, True, True]
-    return dict(arrays=arrays, cfl=draw(st.floats(0.01, 1.0)),
+    hist = draw(st.sampled_from(['present', 'fix', 'fix', 'members',
+                                 'members', 'props'])) if audit \
+        else 'present'
+    case = dict(arrays=arrays, cfl=draw(st.floats(0.01, 1.0)),
                 fixed_h=fixed_h,
                 nrounds=draw(st.integers(1, 3)),
                 dt=10.0 ** draw(st.floats(-4, 1)),
                 via_solver=draw(st.booleans()),
                 n_damp=draw(st.sampled_from([0, 0, 3, 8])),
                 warm=draw(st.integers(0, 6)))
+    if not audit:
+        if fixed_h:
+            for a in arrays:
+                a['present'] = [True, True, True]
+        return case
+    case['nrounds'] = draw(st.sampled_from([2, 3, 3]))
+    if hist == 'fix':
+        # set_fixed_h called again between the rounds
+        case['nrounds'] = 3
+        ops = draw(st.sampled_from([
+            [True, False, True], [True, False, None], [False, True, None],
+            [False, True, False], [True, None, False], [False, None, True],
+            [True, True, False], None]))
+        if ops is None:
+            ops = [fixed_h] + [draw(st.sampled_from([None, True, False]))
+                               for _ in range(2)]
+        case['fixed_h'] = fixed_h = ops[0]
+        case['fix_ops'] = ops
+    elif hist == 'members':
+        case['fixed_h'] = fixed_h = False
+        mem = [[draw(st.sampled_from([True, True, False]))
+                for _ in range(narr)]]
+        for r in (1, 2):
+            # at least one array enters or leaves in every round
+            row = list(mem[-1])
+            for i in draw(st.lists(st.integers(0, narr - 1), min_size=1,
+                                   max_size=narr, unique=True)):
+                row[i] = not row[i]
+            mem.append(row)
+        for r in range(3):
+            if not any(mem[r]):
+                mem[r][draw(st.integers(0, narr - 1))] = True
+        ad = [i for i, a in enumerate(arrays) if 'dt_adapt' in a['props']]
+        if ad and not any(mem[0][i] for i in ad) and any(
+                mem[r][i] for r in (1, 2) for i in ad):
+            # excluded: the first dt_adapt array would enter the evaluator
+            # after the first call (see ASSUMPTIONS)
+            mem[0][ad[0]] = True
+            case['xadapt'] = 1
+        case['members'] = mem
+        case['member_how'] = draw(st.sampled_from(['mutate', 'reset']))
+    elif hist == 'props':
+        for a in arrays:
+            a['has'] = [{c: draw(st.sampled_from([True, True, False]))
+                         for c in a['props'] if c != 'dt_adapt'}
+                        for _ in range(3)]
+    if fixed_h or hist == 'fix':
+        for a in arrays:
+            a['present'] = [True, True, True]
+    case['aevals'] = draw(st.sampled_from(['single', 'single', 'list1',
+                                           'list2', 'tuple2', 'list3']))
+    if draw(st.booleans()):
+        case['cfls'] = [draw(st.floats(0.01, 3.0)) for _ in range(3)]
+    if case['via_solver'] and draw(st.booleans()):
+        case['sadapt'] = [True] + [draw(st.booleans()) for _ in range(2)]
+    if case['via_solver'] and draw(st.integers(0, 3)) == 0:
+        case['spar'] = case['dt'] * 10.0 ** draw(st.floats(-2, 2))
+    return case
 
 
 class AEval(object):
@@ -91,16 +171,59 @@ class AEval(object):
         self.particle_arrays = pas
 
 
+class TwoRankPM(object):
+    """ParallelManager.update_time_steps (a MIN reduction) where the other
+    rank always proposes `other`."""
+
+    def __init__(self, other):
+        self.other = other
+
+    def update_time_steps(self, dt):
+        return min([dt, self.other])
+
+
 def present(a, r):
     return a.get('present', [True, True, True])[r]
 
 
+def member(case, i, r):
+    m = case.get('members')
+    return True if m is None else m[r][i]
+
+
+def has_prop(a, c, r):
+    h = a.get('has')
+    return c in a['props'] and (h is None or h[r].get(c, True))
+
+
+def fix_state(case):
+    """Per round: (op applied after the values are set, fixed afterwards,
+    round whose h values the arrays hold)."""
+    ops = case.get('fix_ops') or [case['fixed_h'], None, None]
+    out = []
+    fixed = False
+    hcur = 0
+    for r in range(3):
+        if r == 0 or not fixed:
+            hcur = r
+        if ops[r] is not None:
+            fixed = bool(ops[r])
+        out.append((ops[r], fixed, hcur))
+    return out
+
+
+def cfl_of(case, r):
+    c = case.get('cfls')
+    return case['cfl'] if c is None else c[r]
+
+
 def expected(case, r):
-    """Documented value for round r (r=0 values when fixed_h for h)."""
+    """Documented value for round r (h as it was when fixed_h was set)."""
     import numpy as np
     arrs = [dict(a, n=a['n'] if present(a, r) else 0,
-                 nghost=a['nghost'] if present(a, r) else 0)
-            for a in case['arrays']]
+                 nghost=a['nghost'] if present(a, r) else 0,
+                 props=[c for c in a['props'] if has_prop(a, c, r)])
+            for i, a in enumerate(case['arrays']) if member(case, i, r)]
     adapt_vals = []
     has_adapt = False
     for a in arrs:
@@ -110,7 +233,7 @@ def expected(case, r):
             adapt_vals += a['rounds'][r]['dt_adapt'][:nreal]
     if has_adapt and adapt_vals and min(adapt_vals) > 0:
         return [min(adapt_vals)], 'dt_adapt'
-    hr = 0 if case['fixed_h'] else r
+    hr = fix_state(case)[r][2]
     h_all = []
     h_real = []
     for a in arrs:
@@ -142,7 +265,7 @@ def expected(case, r):
             terms.append(math.sqrt(hmin / math.sqrt(fac['dt_force'])))
         if 'dt_visc' in fac:
             terms.append(hmin / fac['dt_visc'])
-        outs.append(case['cfl'] * min(terms))
+        outs.append(cfl_of(case, r) * min(terms))
     return outs, 'criteria'
 
 
@@ -177,7 +300,8 @@ def check(case):
                                 h=np.array(a['rounds'][0]['h'][:n],
                                            dtype=float))
         for pr in a['props']:
-            pa.add_property(pr)
+            if has_prop(a, pr, 0):
+                pa.add_property(pr)
         if n and a['nghost']:
             labels.append('ghosts')
         if n:
@@ -199,7 +323,31 @@ def check(case):
     if total > 0:
         nnps = LinkedListNNPS(dim=3, particles=pas, radius_scale=2.0)
     integ = Integrator()
-    integ.set_acceleration_evals(AEval(pas))
+    fs = fix_state(case)
+    form = case.get('aevals', 'single')
+    evals = []
+
+    def wire(r, fresh):
+        lst = [pa for i, pa in enumerate(pas) if member(case, i, r)]
+        if not fresh:
+            for ev in evals:
+                ev.particle_arrays[:] = lst
+            return
+        nev = dict(single=1, list1=1, list2=2, tuple2=2, list3=3)[form]
+        evals[:] = [AEval(list(lst)) for _ in range(nev)]
+        if form == 'single':
+            integ.set_acceleration_evals(evals[0])
+        elif form == 'tuple2':
+            integ.set_acceleration_evals(tuple(evals))
+        else:
+            integ.set_acceleration_evals(list(evals))
+    wire(0, True)
+    if form in ('list2', 'tuple2', 'list3'):
+        labels.append('aevals:many')
+    if form == 'tuple2':
+        labels.append('aevals:tuple')
+    if form.startswith('list'):
+        labels.append('aevals:list')
 
     def setvals(r):
         for i, (pa, a) in enumerate(zip(pas, case['arrays'])):
@@ -214,11 +362,20 @@ def check(case):
                     labels.append('ghosts')
             elif not present(a, r) and cur:
                 pa.remove_particles(np.arange(cur))
+            for c in a['props']:
+                if has_prop(a, c, r) and c not in pa.properties:
+                    pa.add_property(c)
+                    labels.append('props:added')
+                elif not has_prop(a, c, r) and c in pa.properties:
+                    pa.remove_property(c)
+                    labels.append('props:removed')
             if not present(a, r) or not a['n']:
                 continue
             vals = a['rounds'][r]
             for k, v in vals.items():
-                if k == 'h' and case['fixed_h'] and r > 0:
+                if k == 'h' and fs[r][2] != r:
+                    continue
+                if k != 'h' and not has_prop(a, k, r):
                     continue
                 getattr(pa, k)  # must exist
                 pa.get_carray(k).get_npy_array()[:] = np.array(v,
@@ -234,11 +391,23 @@ def check(case):
     if case['fixed_h']:
         labels.append('fixed_h')
     integ.set_fixed_h(case['fixed_h'])
+    if case.get('xadapt'):
+        labels.append('excluded:dt_adapt_enters_later')
     solver = None
+    spar = bool(case.get('spar'))
+    if spar and case['via_solver'] and case.get('warm', 0) and \
+            expected(case, 0)[0][0] is None:
+        # KNOWN (audit audC10, /var/tmp/audC10/parallel_no_criterion.py):
+        # in parallel "no criterion" becomes a step of 1e20; not driven
+        spar = False
+        labels.append('excluded:parallel_no_criterion')
     if case['via_solver']:
         solver = Solver(integrator=integ, dt=case['dt'], tf=1e9,
-                        adaptive_timestep=True, cfl=case['cfl'],
-                        n_damp=case.get('n_damp', 0))
+                        adaptive_timestep=True, cfl=cfl_of(case, 0),
+                        n_damp=case.get('n_damp', 0), in_parallel=spar)
+        if spar:
+            solver.set_parallel_manager(TwoRankPM(case['spar']))
+            labels.append('solver_parallel')
         solver.particles = pas
         labels.append('solver_path')
         if case.get('n_damp', 0):
@@ -246,11 +415,40 @@ def check(case):
     nontrivial = False
     nominal = [case['dt']]
     for r in range(case['nrounds']):
+        sad = True
         if r > 0:
             setvals(r)
+            m = case.get('members')
+            if m is not None and m[r] != m[r - 1]:
+                wire(r, case.get('member_how') == 'reset')
+                labels.append('members:' + case.get('member_how', 'mutate'))
+                for i, a in enumerate(case['arrays']):
+                    if m[r][i] != m[r - 1][i]:
+                        labels.append('members:enter' if m[r][i]
+                                      else 'members:leave')
+                        if 'dt_adapt' in a['props']:
+                            labels.append('members:dt_adapt_moves')
+            if fs[r][0] is not None:
+                integ.set_fixed_h(fs[r][0])
+                if fs[r][0] and not fs[r - 1][1]:
+                    labels.append('fix:refix' if any(
+                        f[1] for f in fs[:r]) else 'fix:late')
+                if not fs[r][0] and fs[r - 1][1]:
+                    labels.append('fix:unfix')
+            if case.get('cfls') and cfl_of(case, r) != cfl_of(case, r - 1):
+                labels.append('cfl_varies')
+            if solver is not None:
+                solver.set_cfl(cfl_of(case, r))
+                sad = (case.get('sadapt') or [True] * 3)[r]
+                solver.set_adaptive_timestep(sad)
+                if not sad:
+                    labels.append('solver_fixed_step')
         exp, how = expected(case, r)
+        # what the solver proposes: the global minimum in parallel
+        pexp = [e if (e is None or not spar) else min(e, case['spar'])
+                for e in exp]
         try:
-            got = integ.compute_time_step(case['dt'], case['cfl'])
+            got = integ.compute_time_step(case['dt'], cfl_of(case, r))
             if solver is not None and r == 0:
                 # the solver's own loop: damped steps for a few iterations;
                 # the proposal (undamped) must stay the documented value
@@ -264,16 +462,23 @@ def check(case):
             break
         if how == 'dt_adapt':
             labels.append('dt_adapt')
+            if solver is not None and sad:
+                labels.append('solver+dt_adapt')
+        elif any('dt_adapt' in a['props'] and member(case, i, r)
+                 for i, a in enumerate(case['arrays'])):
+            labels.append('dt_adapt_not_positive')
         if how == 'none':
             labels.append('no_criterion')
-        hr = 0 if case['fixed_h'] else r
-        hs = [h for a in case['arrays'] if present(a, r)
+        hr = fs[r][2]
+        hs = [h for i, a in enumerate(case['arrays'])
+              if present(a, r) and member(case, i, r)
               for h in a['rounds'][hr]['h']]
         all_gt1 = bool(hs) and min(hs) > 1.0
         if all_gt1:
             labels.append('all_h_gt_1')
-        kl = dict(how=how, any_empty=any(a['n'] == 0 or not present(a, r)
-                                          for a in case['arrays']),
+        kl = dict(how=how, any_empty=any(
+            (a['n'] == 0 or not present(a, r)) and member(case, i, r)
+            for i, a in enumerate(case['arrays'])),
                   all_h_gt_1=all_gt1)
 
         def ok(g):
@@ -291,17 +496,19 @@ def check(case):
                     r, got, exp, how), kl, expected=repr(exp),
                 observed=repr(got)))
             break
-        if solver is not None:
+        if solver is not None and spar and sad and exp[0] is None:
+            labels.append('excluded:parallel_no_criterion')
+        elif solver is not None:
             if r == 0:
                 # the solver's nominal step after the warm-up iterations is
                 # the last proposal (the fixed step when none applied)
                 if case.get('warm', 0) and exp[0] is not None:
-                    nominal = list(exp)
+                    nominal = list(pexp)
                 else:
                     nominal = [case['dt']]
             sexp = []
-            for e in exp:
-                sexp += nominal if e is None else [e]
+            for e in pexp:
+                sexp += nominal if (e is None or not sad) else [e]
             if not any(sgot is not None and math.isfinite(sgot) and
                        abs(sgot - e) <= 1e-12 * abs(e) for e in sexp):
                 fails.append(Failure(
@@ -312,8 +519,9 @@ def check(case):
         if how == 'criteria':
             npos = 0
             for c in CRIT:
-                for a in case['arrays']:
-                    if c in a['props'] and present(a, r) and any(
+                for i, a in enumerate(case['arrays']):
+                    if has_prop(a, c, r) and member(case, i, r) and \
+                            present(a, r) and any(
                             v > 0 for v in a['rounds'][r][c][:a['n'] -
                                                              a['nghost']]):
                         npos += 1
@@ -329,14 +537,15 @@ def execute(case):
 
 
 def plan(ctx):
-    n = 5000 if ctx['tier'] == 'quick' else 500000
+    n = 8000 if ctx['tier'] == 'quick' else 500000
     k = 16
-    return [dict(name='dt-%02d' % i, max_examples=n // k) for i in range(k)]
+    return [dict(name='dt-%02d' % i, max_examples=n // k, audit=i >= 8)
+            for i in range(k)]
 
 
 def run_shard(spec, ctx):
     stats = Stats()
-    search(case_strategy(), execute,
+    search(case_strategy(spec.get('audit', False)), execute,
            derive_seed(ctx.seed, 'C19', spec['name']),
            spec['max_examples'], stats, shrink=True, journal=ctx.journal)
     return stats.result()
